@@ -15,7 +15,7 @@ EXPLANATION = ('(a) TreeNodeRecursion::visit_children/sibling/parent and Transfo
                'them in the documented order (apply: f, then visit_children(apply_children); transform_down: f before map_children; '
                'transform_up: map_children before f; rewrite/visit: f_down, children, f_up), checked on resolved callees. (d) Child '
                'coverage: for Expr, LogicalPlan and every ExecutionPlan/PhysicalExpr node type with both, the child fields read by the '
-               'visiting function equal those read by the rewriting function. (e) Children-result propagation: in each of the 25 combinators of the '
+               'visiting function equal those read by the rewriting function; every field of an ExecutionPlan impl that holds an Arc<dyn ExecutionPlan> (33 operators) is read by its children(). (e) Children-result propagation: in each of the 25 combinators of the '
                'traversal layer (map_children of Expr, LogicalPlan, Arc<T: DynTreeNode> and ConcreteTreeNode, every TreeNodeContainer::map_elements, '
                'the transform_* / rewrite defaults) every path that obtained the Transformed result of mapping children returns a value computed '
                'from that result, never a fresh Transformed::no/yes that forgets the children\'s Stop/Jump and changed-flag. User closures and node '
@@ -194,6 +194,34 @@ def children_result_propagated(ctx, f, tr_prefix, in_scope, rule='children-resul
             ctx.ok(rule, d, sample={'fn': d, 'paths_with_children_result': k} if n <= 6 else None)
     return n
 
+
+def physical_children_coverage(ctx, f, rule='physical-children-coverage'):
+    """Every field of an ExecutionPlan implementation whose type is (a container of) Arc<dyn ExecutionPlan> is read by its children():
+    a child that children() does not report is never visited, optimised or displayed by any traversal of the physical plan."""
+    import plancov
+    EP = 'datafusion_physical_plan::execution_plan::ExecutionPlan'
+    n = 0
+    for i in f.impls_of(EP):
+        owner = i.get('self_adt')
+        a = f.adts.get(owner) if owner else None
+        if not a or a['kind'] != 'struct' or a.get('ext') or '::test' in owner or 'test_utils' in owner:
+            continue
+        items = dict((x[0], x[1]) for x in i['items'])
+        kids = [fl[0] for fl in a['variants'][0]['fields'] if 'dyn ' + EP in fl[1]]
+        if not kids or 'children' not in items:
+            continue
+        n += 1
+        ctx.analysed_fns.add(items['children'])
+        rc = plancov.reads(f, items['children'], helper_prefix='@@').get(owner, set())
+        miss = [k for k in kids if k not in rc]
+        inst = owner.rsplit('::', 1)[-1]
+        if miss:
+            ctx.fail(rule, inst, ctx.loc(f.fn(items['children'])), '%s holds child plan(s) %s that children() never reads: they are invisible to every traversal of the physical plan' % (inst, miss),
+                     key='%s|%s|%s' % (rule, owner, ','.join(miss)))
+        else:
+            ctx.ok(rule, inst, sample={'operator': owner, 'child_fields': kids} if n <= 5 else None)
+    return n
+
 def run(ctx):
     f = ctx.facts
     for kind in ('children', 'sibling', 'parent'):
@@ -256,6 +284,8 @@ def run(ctx):
             else:
                 ctx.ok('child-coverage', inst, sample={'node': adt, 'variants_with_children': len(a), 'variants': len(names)})
     ctx.floor('child-coverage', 'node types compared', cov, 2)
+    npc = physical_children_coverage(ctx, f)
+    ctx.floor('physical-children-coverage', 'ExecutionPlan impls with child-plan fields', npc, 30)
     # (e) combinators hand the children's recursion value and changed-flag on
     comb = lambda d: ('tree_node::' in d or ' as datafusion_common::tree_node::TreeNode>' in d or 'TreeNodeContainer' in d) \
         and 'TreeNodeRewriter>' not in d and 'TreeNodeVisitor>' not in d
